@@ -35,25 +35,26 @@ CLAIM = {
     "text": ("Unbounded Lean theorems about one executable model of the whole of stages/t4.py, generic in the number carrier: for every plan, "
              "op list, cooldown history, turn and caps (0 < cap_l2, 0 <= k) the approved list has unique targets, |delta| <= novelty cap, "
              "sum of squares <= cap_l2^2, length <= k with top-K dominance under (-|delta|, ckey), no recorded provenance in cooldown, only "
-             "proposed targets, strict canonical order; blocked ops reported ascending; merge = per-key sum (pipeline spec); permutation "
-             "invariance under exact arithmetic and injective ckeys, with machine-checked witnesses that it fails for colliding ckeys. "
+             "proposed targets, strict canonical order; blocked ops reported ascending; merge = per-key sum in canonical order (pipeline spec); "
+             "permutation invariance of the whole result for EVERY totally ordered carrier (no associativity: covers Float without NaN) under "
+             "injective ckeys, with a machine-checked witness that it fails for colliding ckeys. "
              "The same definitions run at Float in the driver and agree bit-for-bit with the real t4_filter; the Bool predicates the theorems "
              "are about are evaluated by Lean on the real T4Result."),
     "note": ("Proved at ordered fields with sqrt as a parameter (laws as hypotheses); IEEE rounding is not a field: novelty/churn/cooldown/"
              "subset/sorted/unique are monitored exactly at Float, the L2 cap with slack 1e-9 (float-gap probe reports how often the exact "
-             "predicate is off by rounding). Order-independence is false of the current code for >=3 duplicates under float addition and "
-             "for colliding string ckeys (known findings, negation witnesses in Lean / reproduced on the real code). Purity, argument shapes "
+             "predicate is off by rounding). Order-independence under float addition was false of the original code ([1e16,1,-1e16]); repaired by "
+             "proposed_fixes/C03_combine_sum_canonical_order.diff (regression case in corpus, monitor key order.float-sum). It is still false "
+             "for colliding string ckeys (known finding, negation witness in Lean, reproduced on the real code). Purity, argument shapes "
              "(_get_cfg, _get_plan_*, _get_last_turn_map, _get_turn, _get_op_kind) and metrics.caps are covered by correspondence only. "
              "`delta_norm_cap_l2 = NaN` is accepted by the validator and makes every approved delta NaN (finding, belongs with C14); "
              "`delta_norm_cap_l2 < 1e-150` (accepted too) lets squares underflow so the L2 cap is not enforced (finding l2.tiny-cap)."),
     "technique": "Lean 4 theorems over a generic ordered field about the executable pipeline model + bit-exact differential execution at Float + Lean-evaluated monitors on the real T4Result",
     "design_ref": "DESIGN.md §4 C03, §2.3, §5 row 13",
 }
-DRIVER_MODULES = ['HT4']
 MODELLED = {
     "clematis/engine/stages/t4.py": [
         "t4_filter", "_get_cfg", "_get_plan_ops", "_get_plan_deltas", "_canonical_key", "_combine_by_ckey",
-        "_min_optional_int", "_collect_blocked_ops", "_get_turn", "_get_last_turn_map", "_map_get", "_get_op_kind",
+        "_sum_canonical", "_min_optional_int", "_collect_blocked_ops", "_get_turn", "_get_last_turn_map", "_map_get", "_get_op_kind",
         "_novelty_clamp", "_l2_scale", "_churn_cap"],
 }
 TRUSTED = ["modelled, not verified: IEEE-754 rounding of + * / sqrt (Lean Float = CPython float on this image, probed by the exact correspondence); "
@@ -425,11 +426,16 @@ class T4Comp(Component):
         if stream == "malformed" and rng.random() < 0.25:
             k = rng.choice([-1, -2, -ndist - 1])
         # L2 cap around the plan's own (unblocked) norm
-        acc: Dict[str, float] = {}
+        grp: Dict[str, List[float]] = {}
         for d in deltas:
-            kk = ckey_s(d)
-            v = float(vs_decode(d["delta"]))
-            acc[kk] = acc[kk] + v if kk in acc else v
+            grp.setdefault(ckey_s(d), []).append(float(vs_decode(d["delta"])))
+        acc: Dict[str, float] = {}
+        for kk, vals in grp.items():
+            vals = sorted(vals)
+            tot = vals[0]
+            for v in vals[1:]:
+                tot += v
+            acc[kk] = tot
         s = 0.0
         for v in acc.values():
             c = abs(nov)
